@@ -57,6 +57,9 @@ def build(env, reps):
                     if L != size:
                         s.call("from_bytes", kind=kind, bytes=g.rbytes(L), src="wrong_length")
                 s.call("from_bytes", kind=kind, bytes="@z:00:%d" % (size * 50 + 7), src="wrong_length")
+                for alias in (256, 65536, 131072):
+                    # lengths equal to the right one modulo 2^8 / 2^16 (a narrowed length comparison would accept them)
+                    s.call("from_bytes", kind=kind, bytes=g.rbytes(size + alias), src="wrong_length")
                 if kem == 0x0020 or kind == "tag":
                     for _ in range(reps * 4):
                         s.call("from_bytes", kind=kind, bytes=g.rbytes(size), src="arbitrary")
@@ -89,8 +92,11 @@ def build(env, reps):
                             xb = x.to_bytes(c.nbytes, "big")
                             for tag in (2 + (y & 1), 3 - (y & 1), 5, 4):
                                 s.call("from_bytes", kind=kind, bytes=bytes([tag]) + xb, src="wrong_length_sec1_compressed")
-                    for _ in range(reps):
-                        d = rnd.randrange(1, c.n)
+                    ds = [rnd.randrange(1, c.n) for _ in range(reps)]
+                    if kind == "sk":
+                        # scalars with leading zero bytes
+                        ds += [1, 255, 1 << 64, rnd.randrange(1, 1 << (8 * (c.nbytes - 2))), rnd.randrange(1, 1 << (8 * (c.nbytes - 1)))]
+                    for d in ds:
                         b = c.encode_private(d) if kind == "sk" else c.encode_public(c.mul_base(d))
                         s.call("from_bytes", kind=kind, bytes=b, src="reference_key")
                         s.call("write_exact", kind=kind, bytes=b, buflen=size)
